@@ -180,6 +180,18 @@ Theorem C17_well_formed_refuted_before_fix_map_object :
 Proof. exact before_fix_map_object_receiver. Qed.
 Print Assumptions C17_well_formed_refuted_before_fix_map_object.
 
+(* A blank field (`_ int`).  The model's Frag has no clause for the blank identifier: like the Go loop before
+   fixes/C17-blank-field.diff it emits a statement for every field it is given, `out._ = in._` for a blank one - a
+   selector Go does not accept.  The repaired loop skips exactly that name; the correspondence harness presents a struct
+   to the model WITHOUT its blank fields (they hold no value: always zero, ignored by ==), so that the model of the
+   repaired code on `S{A []int; _ int}` is the model on `S{A []int}`, and the observed `out._ = in._` of the unrepaired
+   code equals no model statement. *)
+Theorem C17_blank_field_statement_before_fix : forall fx G vis,
+  fields_copy fx G vis [(bs "A", FSlice (EBasic (bs "int"))); (bs "_", FBasic (bs "int"))]
+  = Ok ([SCopySlice (bs "A") (bs "[]int"); SAssign (bs "_")], []).
+Proof. intros. reflexivity. Qed.
+Print Assumptions C17_blank_field_statement_before_fix.
+
 (* ---- known finding type_argument_with_containers: C17_copy_equal_fresh_unshared is PARTIAL through its hypothesis
         [wt] - the value of a bare type-parameter field is a scalar, i.e. no type argument of an instantiation is, or
         by value contains, a slice or map.  Outside that guard the sentence is false for the repaired generator:
